@@ -1688,6 +1688,7 @@ MODULES = {
                 'basename': Builtin('os.path.basename', lambda eng, p: __import__('os').path.basename(_concrete_str(p))),
                 'exists': Builtin('os.path.exists', lambda eng, p: _fs_exists(eng, p))}, 'struct': {}, 'collections': {'Iterable': _TypeTag('Iterable', lambda x: isinstance(x, (list, tuple, NVec, str, dict, set)))},
     'collections.abc': {'Iterable': _TypeTag('Iterable', lambda x: isinstance(x, (list, tuple, NVec, str, dict, set)))},
-    'scipy.optimize': {'fsolve': sp_fsolve},
+    'scipy.optimize': {'fsolve': sp_fsolve, 'bisect': _unsupported_fn('scipy.optimize.bisect')},
+    'numbers': {'Number': _TypeTag('Number', lambda x: (isinstance(x, (int, Fraction, float)) and not isinstance(x, bool)) or (is_z3(x) and (z3.is_real(x) or z3.is_int(x))))},
     'scipy.spatial': {'cKDTree': Builtin('cKDTree', _ckdtree)},
 }
